@@ -8,7 +8,7 @@ import ColaVerif.Model.Index
 * `Op.colVec_eq`, `Op.rowVec_eq` — column / row extraction (`A @ e_j`, `A.T @ e_i`);
 * `Op.hermOK_sliced` — a principal sub-operator of a Hermitian operator is Hermitian, so the
   `Sliced` operator `getitem` builds satisfies the hypotheses of `Op.td_eq`;
-* the named clauses `NoArrPair`, `NoDupIx`, `EqualLenLists`;
+* the named clauses `NoArrPair`, `NoDupIx`;
 * `Op.getitem_agree` — the case analysis over the `match` of `__getitem__`.
 -/
 
@@ -205,15 +205,6 @@ def NoDupIx (A : Op R) : List GIx → Prop
       ((Ix.resolve A.rows s0).getD []).Nodup ∧ ((Ix.resolve A.cols s1).getD []).Nodup
   | _ => True
 
-/-- clause `getitem-list-zip`: two index lists have the same, positive length.  The code zips
-them — silently truncating to the shorter one where NumPy broadcasts a length-1 list or raises
-`IndexError` (shape mismatch) — and stacks the selected entries, which raises `ValueError` for
-empty lists where NumPy returns an empty vector. -/
-def EqualLenLists : List GIx → Prop
-  | [.list li, .list lj] => li.length = lj.length ∧ li ≠ []
-  | _ => True
-
-
 /-! ## the sub-operator cases -/
 
 theorem agree_sliced (A : Op R) (hg : Good A) (s0 s1 : Ix) (rs cs : List Nat)
@@ -367,63 +358,105 @@ theorem getitem_ix_ix (A : Op R) (hg : Good A) (s0 s1 : Ix)
     | slice a b c => simp only [getitem, npIndex]; exact key
     | arr l1 => exact absurd hp (by simp [NoArrPair])
 
-/-- `A[[i…], [j…]]`, lists of equal positive length -/
-theorem getitem_list_list (A : Op R) (hg : Good A) (li lj : List Int)
-    (he : EqualLenLists [.list li, .list lj]) :
+omit [CommRing R] [StarRing R] [DecidableEq R] in
+theorem flatten_replicate_singleton (n : Nat) (x : Int) :
+    (List.replicate n [x]).flatten = List.replicate n x := by
+  induction n with
+  | zero => rfl
+  | succ n ih => simp [List.replicate_succ, ih]
+
+omit [CommRing R] [StarRing R] [DecidableEq R] in
+/-- the list preparation of the code (Python list repetition) is NumPy's broadcasting of two 1-D
+index sequences -/
+theorem listBcast_eq_bcastIdx (li lj : List Int) : listBcast li lj = bcastIdx li lj := by
+  unfold listBcast bcastIdx
+  by_cases he : li.length = lj.length
+  · simp [he]
+  · by_cases h1 : li.length = 1
+    · obtain ⟨x, rfl⟩ := List.length_eq_one_iff.mp h1
+      simp [he, flatten_replicate_singleton]
+    · by_cases h2 : lj.length = 1
+      · obtain ⟨y, rfl⟩ := List.length_eq_one_iff.mp h2
+        simp [he, h1, flatten_replicate_singleton]
+      · simp [he, h1, h2]
+
+omit [CommRing R] [StarRing R] [DecidableEq R] in
+theorem bcastIdx_length {li lj a b : List Int} (h : bcastIdx li lj = some (a, b)) :
+    a.length = b.length := by
+  unfold bcastIdx at h
+  split at h
+  · simp only [Option.some.injEq, Prod.mk.injEq] at h
+    obtain ⟨rfl, rfl⟩ := h
+    assumption
+  · split at h
+    · simp only [Option.some.injEq, Prod.mk.injEq] at h
+      obtain ⟨rfl, rfl⟩ := h
+      simp
+    · split at h
+      · simp only [Option.some.injEq, Prod.mk.injEq] at h
+        obtain ⟨rfl, rfl⟩ := h
+        simp
+      · cases h
+
+/-- `A[[i…], [j…]]`: every pair of index lists — equal lengths, a single index broadcast against
+the other list, lists that cannot be broadcast (IndexError on both sides), empty lists -/
+theorem getitem_list_list (A : Op R) (hg : Good A) (li lj : List Int) :
     GRes.Agree (A.getitem [.list li, .list lj])
       (npIndex A.rows A.cols A.den.f [.list li, .list lj]) := by
-  simp only [EqualLenLists] at he
-  obtain ⟨he, hne⟩ := he
-  simp only [getitem, npIndex, npPaired, bcastIdx, if_pos he]
-  rw [pairs_mapM A.rows A.cols li lj he]
-  cases h0 : GRes.wrapAll A.rows li with
-  | none => simp [GRes.Agree]
-  | some rs =>
-    cases h1 : GRes.wrapAll A.cols lj with
-    | none => simp [GRes.Agree]
-    | some cs =>
-      obtain ⟨l0, b0⟩ := GRes.wrapAll_spec _ _ _ h0
-      obtain ⟨l1, b1⟩ := GRes.wrapAll_spec _ _ _ h1
-      have hlen : 0 < li.length := List.length_pos_of_ne_nil hne
-      -- the zipped list is not empty, so `stack` does not raise
-      obtain ⟨r0, rs', hrs⟩ : ∃ r0 rs', rs = r0 :: rs' := by
-        cases rs with
-        | nil => simp at l0; omega
-        | cons r0 rs' => exact ⟨r0, rs', rfl⟩
-      obtain ⟨c0, cs', hcs⟩ : ∃ c0 cs', cs = c0 :: cs' := by
-        cases cs with
-        | nil => simp at l1; omega
-        | cons c0 cs' => exact ⟨c0, cs', rfl⟩
-      have hz : rs.zip cs = (r0, c0) :: rs'.zip cs' := by rw [hrs, hcs, List.zip_cons_cons]
-      simp only [hz]
-      rw [← hz]
-      simp only [GRes.Agree]
-      refine ⟨by simp [List.length_zip]; omega, ?_⟩
-      intro t ht
-      simp only [List.length_map, List.length_zip] at ht
-      have t0 : t < rs.length := by omega
-      have t1 : t < cs.length := by omega
-      rw [getD_map_zip rs cs _ 0 t t0 t1]
-      exact colVec_eq A hg _ _ (b1 _ (getD_mem_of_lt cs t t1)) (b0 _ (getD_mem_of_lt rs t t0))
+  simp only [getitem, npIndex, npPaired, listBcast_eq_bcastIdx]
+  cases hb : bcastIdx li lj with
+  | none => exact agree_err _
+  | some ab =>
+    obtain ⟨a, b⟩ := ab
+    have he := bcastIdx_length hb
+    simp only
+    cases ha : a with
+    | nil =>
+      have hbn : b = [] := by
+        rw [ha] at he
+        exact List.eq_nil_of_length_eq_zero he.symm
+      subst hbn
+      simp [GRes.wrapAll_nil, GRes.Agree]
+    | cons a0 as =>
+      rw [← ha]
+      have hne : a.isEmpty = false := by rw [ha]; rfl
+      simp only [hne, Bool.false_eq_true, if_false]
+      rw [pairs_mapM A.rows A.cols a b he]
+      cases h0 : GRes.wrapAll A.rows a with
+      | none => simp [GRes.Agree]
+      | some rs =>
+        cases h1 : GRes.wrapAll A.cols b with
+        | none => simp [GRes.Agree]
+        | some cs =>
+          obtain ⟨l0, b0⟩ := GRes.wrapAll_spec _ _ _ h0
+          obtain ⟨l1, b1⟩ := GRes.wrapAll_spec _ _ _ h1
+          simp only [GRes.Agree]
+          refine ⟨by simp [List.length_zip]; omega, ?_⟩
+          intro t ht
+          simp only [List.length_map, List.length_zip] at ht
+          have t0 : t < rs.length := by omega
+          have t1 : t < cs.length := by omega
+          rw [getD_map_zip rs cs _ 0 t t0 t1]
+          exact colVec_eq A hg _ _ (b1 _ (getD_mem_of_lt cs t t1)) (b0 _ (getD_mem_of_lt rs t t0))
 
 /-- **C20**: every index form handled by the `match` of `__getitem__` (and the `NotImplemented`
 rest) agrees with NumPy indexing of the represented matrix. -/
 theorem getitem_agree (A : Op R) (hg : Good A) (hr : A.RealTyped) :
-    ∀ (ids : List GIx), NoArrPair ids → NoDupIx A ids → EqualLenLists ids →
+    ∀ (ids : List GIx), NoArrPair ids → NoDupIx A ids →
       GRes.Agree (A.getitem ids) (npIndex A.rows A.cols A.den.f ids)
-  | [], _, _, _ => by simp only [getitem, npIndex]; exact agree_err _
-  | [.int i], _, _, _ => getitem_int A hg hr i
-  | [.ix s], _, hn, _ => getitem_ix A hg s hn
-  | [.list l], _, _, _ => by simp only [getitem, npIndex]; exact agree_err _
-  | [b, .int j], _, _, _ => getitem_col A hg b j
-  | [.int i, .ix s], _, _, _ => getitem_row A hg hr i (.ix s) (by intro j e; cases e)
-  | [.int i, .list l], _, _, _ => getitem_row A hg hr i (.list l) (by intro j e; cases e)
-  | [.ix s0, .ix s1], hp, hn, _ => getitem_ix_ix A hg s0 s1 hp hn
-  | [.list li, .list lj], _, _, he => getitem_list_list A hg li lj he
-  | [.ix s, .list l], _, _, _ => by simp only [getitem, npIndex]; exact agree_err _
-  | [.list l, .ix s], _, _, _ => by
+  | [], _, _ => by simp only [getitem, npIndex]; exact agree_err _
+  | [.int i], _, _ => getitem_int A hg hr i
+  | [.ix s], _, hn => getitem_ix A hg s hn
+  | [.list l], _, _ => by simp only [getitem, npIndex]; exact agree_err _
+  | [b, .int j], _, _ => getitem_col A hg b j
+  | [.int i, .ix s], _, _ => getitem_row A hg hr i (.ix s) (by intro j e; cases e)
+  | [.int i, .list l], _, _ => getitem_row A hg hr i (.list l) (by intro j e; cases e)
+  | [.ix s0, .ix s1], hp, hn => getitem_ix_ix A hg s0 s1 hp hn
+  | [.list li, .list lj], _, _ => getitem_list_list A hg li lj
+  | [.ix s, .list l], _, _ => by simp only [getitem, npIndex]; exact agree_err _
+  | [.list l, .ix s], _, _ => by
     cases s <;> (simp only [getitem, npIndex]; exact agree_err _)
-  | _ :: _ :: _ :: _, _, _, _ => by simp only [getitem, npIndex]; exact agree_err _
+  | _ :: _ :: _ :: _, _, _ => by simp only [getitem, npIndex]; exact agree_err _
 
 end Op
 
